@@ -70,6 +70,8 @@ class Engine:
         self.n_decisions = 0
         self.n_forks = 0
         self.max_depth = 5000
+        self.n_summaries = 0
+        self.nested = 0
 
     # ---- solver helpers
     def _check(self, *extra):
@@ -102,6 +104,7 @@ class Engine:
         self.model = None
         self.tokens = []
         self.token_back = {}
+        self.nested = 0
         self.solver.reset()
         self.solver.set("timeout", SOLVER_TIMEOUT_MS)
         if self.pre is not None:
@@ -142,6 +145,17 @@ class Engine:
                 raise Divergence("replay divergence at decision %d: %s" % (i, cond))
             self._take(cond, choice, h)
             return choice
+        if self.nested:
+            # inside a function summary the exploration order must not depend on solver models,
+            # otherwise the merged term differs between replays: always try the true side first
+            can_t, _ = self._check(cond)
+            can_f, _ = self._check(z3.Not(cond))
+            if not (can_t or can_f):
+                raise Inconclusive("infeasible path inside summary")
+            if can_t and can_f:
+                self.work.append(self.trail + [(False, h)])
+            self._take(cond, can_t, h)
+            return can_t
         if self.model is None:
             ok, m = self._check()
             if not ok:
@@ -168,6 +182,43 @@ class Engine:
             self.n_forks += 1
         self._take(cond, cur, h)
         return cur
+
+    # ---- function summaries (state merging)
+    def summarise(self, fn, *args, **kw):
+        """Explore a pure scalar-valued function in a nested exploration below the current path and merge
+        its outcomes into one ite term, so the caller forks only where it branches itself."""
+        if self.mode != "sym":
+            return fn(*args, **kw)
+        saved = (self.trail, self.prefix, self.pc, self.known, self.work, self.deferred_pcs, self.model)
+        outcomes = []
+        local_work = [[]]
+        self.n_summaries += 1
+        self.nested += 1
+        try:
+            while local_work:
+                lp = local_work.pop()
+                self.solver.push()
+                self.trail, self.prefix, self.pc = [], lp, []
+                self.known = dict(saved[3])
+                self.work, self.deferred_pcs, self.model = local_work, [], None
+                try:
+                    val = fn(*args, **kw)
+                finally:
+                    self.solver.pop()
+                outcomes.append((z3.And(self.pc) if self.pc else z3.BoolVal(True), val))
+        finally:
+            self.nested -= 1
+            self.trail, self.prefix, self.pc, self.known, self.work, self.deferred_pcs, self.model = saved
+        first = outcomes[-1][1]
+        if type(first) in (SymBool, bool):
+            acc = _zb(first)
+            for cond, v in reversed(outcomes[:-1]):
+                acc = z3.If(cond, _zb(v), acc)
+            return SymBool(acc)
+        acc = _zi(first)
+        for cond, v in reversed(outcomes[:-1]):
+            acc = z3.If(cond, _zi(v), acc)
+        return _wrap_arith(acc)
 
     # ---- text tokens for rendered ints
     def token_for(self, z):
